@@ -119,7 +119,12 @@ def _sens(text, goal, param):
 
 P_GAM_A = "r = 2\nm = 1\nx = 0\ny = 0\nwhile true:\n    g = Gamma(r, 1)\n    h = Laplace(m, 1)\n    x = x + g\n    y = y + h**2\nend\n"
 P_GAM_B = "r = 3\nm = 2\nx = 0\ny = 0\nwhile true:\n    g = Gamma(r, 1)\n    h = Laplace(m, 1)\n    x = x + g\n    y = y + h**2\nend\n"
+P_CATIF = "c = 0\nx = 0\nwhile true:\n    c = Bernoulli(1/2)\n    if c == 1:\n        x = Categorical(1/2, 1/4, 1/4)\n    end\nend\n"
+P_CAT3 = ("x = 0\ny = 0\ns = 0\nz = 0\nwhile true:\n    x = x + 1\n    y = Categorical(1/3, 1/3, 1/3)\n    s = s + y\n"
+          "    if y == 2:\n        z = z + 1\n    end\nend\n")
 OPS = {
+    "catif": lambda: _moments(P_CATIF, ["x", "c", "x**2"]),
+    "cat3": lambda: _moments(P_CAT3, ["z", "s", "x"]),
     "gamA": lambda: _moments(P_GAM_A, ["x", "x**2", "y"]),
     "gamB": lambda: _moments(P_GAM_B, ["x", "x**2", "y"]),
     "finA": lambda: _moments(P_FIN_A, ["x", "x**2", "c**3"]),
